@@ -358,9 +358,9 @@ func (f *MemFile) ReadDir(n int) (entries []fs.DirEntry, err error) {
 		return nil, io.EOF
 	}
 
-	end := start + n
-	if end > len(f.dirEntries) {
-		end = len(f.dirEntries)
+	end := len(f.dirEntries)
+	if n < end-start {
+		end = start + n
 	}
 
 	f.dirIndex = end
@@ -435,9 +435,9 @@ func (f *MemFile) Readdirnames(n int) (names []string, err error) {
 		return nil, io.EOF
 	}
 
-	end := start + n
-	if end > len(f.dirNames) {
-		end = len(f.dirNames)
+	end := len(f.dirNames)
+	if n < end-start {
+		end = start + n
 	}
 
 	f.dirIndex = end
